@@ -126,4 +126,41 @@ def Nevra.cmp (x y : Nevra) : Ordering :=
 /-- derived `PartialEq for Nevra` (uses `Evr`'s hand-written `eq`) -/
 def Nevra.eq (x y : Nevra) : Bool := x.name == y.name && x.evr.eq y.evr && x.arch == y.arch
 
+/-! ## `PartialOrd` and the comparison operators
+
+`impl PartialOrd for Evr` / `for Nevra` are written by hand in src/version.rs (`Some(self.cmp(other))`); every `<`, `<=`,
+`>`, `>=` on these types goes through `partial_cmp` (the provided methods of `core::cmp::PartialOrd`), `max` / `min` are the
+provided methods of `core::cmp::Ord`. -/
+
+/-- `impl PartialOrd for Evr`: `fn partial_cmp(&self, other) -> Option<Ordering> { Some(self.cmp(other)) }` -/
+def Evr.partialCmp (x y : Evr) : Option Ordering := some (x.cmp y)
+
+/-- `impl PartialOrd for Nevra`: the same body -/
+def Nevra.partialCmp (x y : Nevra) : Option Ordering := some (x.cmp y)
+
+/-- `PartialOrd::lt`: `matches!(self.partial_cmp(other), Some(Less))` -/
+def optLt : Option Ordering → Bool | some .lt => true | _ => false
+/-- `PartialOrd::le`: `matches!(self.partial_cmp(other), Some(Less | Equal))` -/
+def optLe : Option Ordering → Bool | some .lt | some .eq => true | _ => false
+/-- `PartialOrd::gt`: `matches!(self.partial_cmp(other), Some(Greater))` -/
+def optGt : Option Ordering → Bool | some .gt => true | _ => false
+/-- `PartialOrd::ge`: `matches!(self.partial_cmp(other), Some(Greater | Equal))` -/
+def optGe : Option Ordering → Bool | some .gt | some .eq => true | _ => false
+
+def Evr.lt (x y : Evr) : Bool := optLt (x.partialCmp y)
+def Evr.le (x y : Evr) : Bool := optLe (x.partialCmp y)
+def Evr.gt (x y : Evr) : Bool := optGt (x.partialCmp y)
+def Evr.ge (x y : Evr) : Bool := optGe (x.partialCmp y)
+/-- `Ord::max(self, other)`: `if other < self { self } else { other }` (the second argument on a tie) -/
+def Evr.max (x y : Evr) : Evr := if y.lt x then x else y
+/-- `Ord::min(self, other)`: `if other < self { other } else { self }` (the first argument on a tie) -/
+def Evr.min (x y : Evr) : Evr := if y.lt x then y else x
+
+def Nevra.lt (x y : Nevra) : Bool := optLt (x.partialCmp y)
+def Nevra.le (x y : Nevra) : Bool := optLe (x.partialCmp y)
+def Nevra.gt (x y : Nevra) : Bool := optGt (x.partialCmp y)
+def Nevra.ge (x y : Nevra) : Bool := optGe (x.partialCmp y)
+def Nevra.max (x y : Nevra) : Nevra := if y.lt x then x else y
+def Nevra.min (x y : Nevra) : Nevra := if y.lt x then y else x
+
 end RpmVerif.Vercmp
